@@ -259,6 +259,19 @@ class IdObj(object):
         return "IdObj(%s)" % self.name
 
 
+_SUBCLASSES = {}
+
+
+def constraint_class(cls, sub):
+    """cls, or (sub true) a caller-defined subclass of it that adds nothing:
+    a constraint of a derived class is a constraint of its base class."""
+    if not sub:
+        return cls
+    if cls not in _SUBCLASSES:
+        _SUBCLASSES[cls] = type("Users" + cls.__name__, (cls,), {})
+    return _SUBCLASSES[cls]
+
+
 def vertex_objects(names, kind):
     """name -> vertex object handed to rig."""
     if kind == "idobj":
